@@ -188,11 +188,21 @@ class FactoryOracle:
             elif edge._spec["type"] == "slotconv":
                 sp = edge._spec
                 self.conv_oracles.append(ConveyorOracle(mon, sh, sp["capacity"] * sp["delay"], sp["delay"], sp["capacity"], sp["acc"], True))
-        for node in model.nodes.values():
-            for i, e in enumerate(node.out_edges or []):
-                self.edge_idx_out[id(e)] = i
-            for i, e in enumerate(node.in_edges or []):
-                self.edge_idx_in[id(e)] = i
+        for nid, node in model.nodes.items():
+            # edge indices are those of the declared order (constructor lists / order of the connect calls), not whatever the
+            # node's lists hold now; a node whose lists are in another order routes "index i" to another edge than declared
+            for side, lst, idx_map in (("out", node.out_edges or [], self.edge_idx_out), ("in", node.in_edges or [], self.edge_idx_in)):
+                decl = getattr(model, "declared_" + side, {}).get(nid)
+                if decl is not None and all(d in model.edges for d in decl):
+                    actual = [getattr(e, "id", None) for e in lst]
+                    if actual != decl:
+                        mon.violation("C15", "edge_order_changed", f"{NODE_TYPES[type(node).__name__]}:{side}-edges-not-in-the-declared-order",
+                                      {"node": nid, "declared": decl, "actual": actual})
+                    for i, d in enumerate(decl):
+                        idx_map[id(model.edges[d])] = i
+                else:
+                    for i, e in enumerate(lst):
+                        idx_map[id(e)] = i
         self._patch_items()
         self.node_procs = defaultdict(list)
         self.ledger_by_id = {L.id: L for L in self.ledgers.values()}
